@@ -615,7 +615,7 @@ def decusped_common_mesh_keeps_material_boundaries(ctx, fuel, fuel2=None, coinci
     mesh = list(gen._commonMesh)
     mreq = m
     if ctx.canary:
-        mreq = m * ITE(AND(ct > ft + 20, m > 25), 1.5, 1)
+        mreq = m * ITE(AND(m > 12, m < 13), 1.5, 1)
     ctx.check("result is not empty", len(mesh) >= 1)
     for a, b in zip(mesh, mesh[1:]):
         ctx.check("strictly increasing, no cell thinner than the minimum", AND(b > a, b - a >= mreq))
